@@ -786,3 +786,31 @@ func VerifCSSLongNumber(n int) {
 	vAssert(len(out) <= len(val), "never longer")
 	vReach("end")
 }
+
+var verifCSSShapeSuffixes = []string{"", "e0", "e1", "e2", "e3", "e-1", "e-2", "e-5", "e-8"}
+
+// VerifCSSNumberShape: width:<I.F><suffix><unit> with I of n/10 and F of n%10 symbolic digits: the print-form
+// transitions of the number code as reached through a declaration (same value, same unit).
+func VerifCSSNumberShape(n int) {
+	ni, nf := n/10, n%10
+	d := vBytes("d", ni+nf)
+	for _, c := range d {
+		vAssume('0' <= c && c <= '9')
+	}
+	sfx := verifCSSShapeSuffixes[vChoice("sfx", len(verifCSSShapeSuffixes))]
+	unit := []string{"px", "", "%"}[vChoice("unit", 3)]
+	num := append(append(append(append([]byte(nil), d[:ni]...), '.'), d[ni:]...), sfx...)
+	val := append(append([]byte(nil), num...), unit...)
+	orig := append([]byte(nil), num...)
+	out := verifDecl("width", val, &Minifier{})
+	k := 0
+	for k < len(out) && (refDigit(out[k]) || out[k] == '.' || out[k] == '-' || out[k] == '+' || (out[k] == 'e' || out[k] == 'E') && k+1 < len(out) && (refDigit(out[k+1]) || out[k+1] == '-' || out[k+1] == '+')) {
+		k++
+	}
+	onum, ounit := out[:k], out[k:]
+	vAssert(refIsNumber(onum, true), "output starts with a number")
+	a, b := refParse(orig), refParse(onum)
+	vAssert(refSame(a, b), "same numeric value")
+	vAssert(rcEq(ounit, []byte(unit)) || len(ounit) == 0 && a.zero && unit == "px", "same unit")
+	vReach("end")
+}
